@@ -291,7 +291,9 @@ inductive FeedRes where
   | ok | err
 deriving DecidableEq, Repr
 
-/-- `ChainService.addBlock` for a valid block received from the network. -/
+/-- `ChainService.addBlock` for a *valid* block received from the network (the bad-block cache, the
+timestamp/signature checks and the "number = parent's number + 1" check of `addBlockInternal` never fire on
+the blocks of the C06 scenarios and are not modelled; invalid blocks are C03/C05's ground). -/
 def feed (N : Node) (b : Block) : Node × FeedRes × List Unit :=
   if (getBlock N.D b.id).isSome then (N, .ok, [])                       -- IsConnectedBlock
   else if (getBlock N.D b.parent).isNone then                           -- isOrphan → handleOrphan
